@@ -213,6 +213,7 @@ class SimFS(AbstractFileSystem):
         self.crashed = False
         self.open_handles = set()
         self.closed_ok = set()
+        self.io_hook = None             # scheduler pre-emption hook
         # durability journal since sync_point()
         self.j_created = {}             # path -> True (did not exist at sync)
         self.j_orig = {}                # path -> bytes at sync (pre-existing)
@@ -245,6 +246,8 @@ class SimFS(AbstractFileSystem):
 
     def _event(self, op, path, **detail):
         self._alive()
+        if self.io_hook is not None:
+            self.io_hook(op, path)
         self.seq += 1
         self.op_calls += 1
         detail['k'] = self.op_calls
@@ -426,6 +429,8 @@ class SimFS(AbstractFileSystem):
             if path not in self.files:
                 raise FileNotFoundError(errno.ENOENT, 'No such file', path)
             self.reads += 1
+            if self.io_hook is not None:
+                self.io_hook('open:rb', path)
             f = io.BytesIO(bytes(self.files[path]))
             f.name = path
             return f
@@ -543,6 +548,8 @@ class SimFS(AbstractFileSystem):
         if path not in self.files:
             raise FileNotFoundError(errno.ENOENT, 'No such file', path)
         self.reads += 1
+        if self.io_hook is not None:
+            self.io_hook('cat', path)
         return bytes(self.files[path][slice(start, end)])
 
     # ------------------------------------------------------------------ views
